@@ -6,6 +6,9 @@ CONSTANTS
  HdrLens <- MCHdrLens
  LimitUnits <- MCLimitUnits
  NameLens <- MCNameLens
+ UUnits <- MCUUnits
+ Resid <- MCResid
+ NameLensU <- MCNameLensU
  Alphabet <- MCAlphabet
  LongNames <- MCLongNames
  MetaLens <- MCMetaLens
